@@ -222,6 +222,8 @@ def tuple_term(a):
         t = schema_term(a)
         if t[0] == "Flatten":
             return t
+    if a.get("k") == "mcall" and a.get("name") == "as_flattened" and not a.get("args") and (a.get("def") or "").startswith(("core::", "std::")):
+        return ("Flatten", nested_repeat(a["recv"]))          # std's `<[[T; N]]>::as_flattened`: the rows one after the other
     return ("?", "tuple payload %s" % a.get("k"))
 
 
